@@ -1326,3 +1326,84 @@ func ruleRecordingDoesNotWait(c *Ctx, p *Prog, rule string) {
 	}
 	c.Check(rule, "metrics:recording-does-not-wait", p, f.Pos(), bad == "", fmt.Sprintf("%d function(s) run synchronously by WriteResponseCodeMetric: no channel send/receive, blocking select or wait for another goroutine", n), "WriteResponseCodeMetric, which every response path calls before the handler returns, waits for another goroutine ("+bad+"): once the exporter is busy or stuck in an RPC and the channel is full, every request of the agent hangs without an answer")
 }
+
+// rulePipeClosers: who may close an end of a pipe of the response path. The
+// body pipe and the upload pipe are closed by the parties that own the event:
+// the handler's Close / CloseWithError, the writer's own give-up on the
+// request context, and the two forwarder goroutines. A close from anywhere
+// else — a watchdog timer armed per chunk, an idle reaper — ends a healthy
+// stream whose backend merely pauses between chunks.
+func rulePipeClosers(c *Ctx, p *Prog, rule string) {
+	allowed := map[string]bool{
+		"agent/utils.(*streamingResponseWriter).WriteHeader":    true,
+		"agent/utils.(*streamingResponseWriter).Close":          true,
+		"agent/utils.(*streamingResponseWriter).CloseWithError": true,
+		"agent/utils.NewResponseForwarder":                      true,
+	}
+	n := 0
+	bad := ""
+	for _, fn := range p.AllFuncsIn("agent/utils") {
+		top := TopFunc(fn)
+		EachInstrRaw(fn, func(i ssa.Instruction) {
+			cc := CallOf(i)
+			if cc == nil {
+				return
+			}
+			switch CalleeName(cc) {
+			case "(*io.PipeReader).Close", "(*io.PipeReader).CloseWithError", "(*io.PipeWriter).Close", "(*io.PipeWriter).CloseWithError":
+			default:
+				return
+			}
+			n++
+			if !allowed[FuncName(top)] {
+				bad = CalleeName(cc) + " in " + FuncName(fn) + " at " + p.Pos(i.Pos())
+			}
+		})
+		// a timer whose callback belongs to the response writer
+		for _, call := range Calls(fn, "time.AfterFunc") {
+			if strings.Contains(FuncName(top), "treamingResponseWriter") || strings.Contains(FuncName(top), "NewResponseForwarder") {
+				bad = "time.AfterFunc in " + FuncName(fn) + " at " + p.Pos(call.Pos())
+			}
+		}
+	}
+	c.Check(rule, "pipes:closed-by-their-owners-only", p, 0, bad == "" && n >= 4, fmt.Sprintf("%d pipe closes in agent/utils, all in the writer's Close/CloseWithError/WriteHeader or the forwarder goroutines; no timer on the writer", n), "an end of a response-path pipe is closed by a new party ("+bad+"): a watchdog or reaper ends a stream whose backend merely pauses between chunks — later chunks fail and the proxy sees a truncated body")
+}
+
+// ruleOneSendPerRoundTrip: a RoundTripper of the module sends the request it is
+// given once. A second wrapped RoundTrip reachable after a first (a resend on
+// 401, a retry inside the transport) doubles the attempts of the retry loop
+// above it and resends a streaming body from wherever the first send left it.
+func ruleOneSendPerRoundTrip(c *Ctx, p *Prog, rule string) {
+	n := 0
+	for _, fn := range p.AllFuncsIn("agent/utils") {
+		if fn.Name() != "RoundTrip" || fn.Signature.Recv() == nil {
+			continue
+		}
+		var sends []ssa.Instruction
+		EachInstr(fn, func(i ssa.Instruction) {
+			if IsCall(i, "(net/http.RoundTripper).RoundTrip", "(*net/http.Transport).RoundTrip", "(*net/http.Client).Do") {
+				sends = append(sends, i)
+			}
+		})
+		bad := ""
+		for _, a := range sends {
+			if InLoop(a.Block()) {
+				bad = "the wrapped RoundTrip at " + p.Pos(a.Pos()) + " is inside a loop"
+			}
+			for _, b := range sends {
+				if a == b {
+					continue
+				}
+				tgt := b
+				if h, _ := (&Walk{Target: func(i ssa.Instruction) bool { return i == tgt }, Local: true}).FromInstr(a); h != nil {
+					bad = "a second send at " + p.Pos(b.Pos()) + " follows the one at " + p.Pos(a.Pos())
+				}
+			}
+		}
+		n++
+		c.Check(rule, "transport:"+FuncName(fn)+":one-send-per-call", p, fn.Pos(), bad == "" && len(sends) >= 1, fmt.Sprintf("%d send site(s), none after another, none in a loop", len(sends)), FuncName(fn)+" can send a request more than once ("+bad+"): each attempt of the upload loop may become two, and a resent streaming body starts wherever the first send stopped reading — the proxy acknowledges a response without its first bytes")
+	}
+	if n == 0 {
+		c.Unk(rule, "transport:one-send-per-call", p, 0, "no RoundTrip method found in agent/utils (the VM identity transport was renamed or removed)")
+	}
+}
